@@ -120,6 +120,7 @@ static void dump_opt(FILE * f, const nlopt_opt o)
 }
 
 static long npre = 0;          /* preconditioner calls of the current run */
+static int nest_marks = 0;     /* the top-level algorithm is an AUGLAG / MLSL variant: mark its subsidiary runs */
 static void hook_event(int id, const void *obj, const double *x, double v, int r)
 {
     switch (id) {
@@ -128,6 +129,9 @@ static void hook_event(int id, const void *obj, const double *x, double v, int r
         if (depth == 0) {
             fprintf(out, "E 1 d=%d x=", depth); phexlist(out, x, x ? (int) o->n : 0);
             fprintf(out, " "); dump_opt(out, o); fprintf(out, "\n");
+        } else if (depth == 1 && nest_marks) {  /* compact marker for every subsidiary run of AUGLAG / MLSL: limits handed, start */
+            fprintf(out, "N 10 d=%d alg=%d maxeval=%d x=", depth + 1, (int) o->algorithm, o->maxeval);
+            phexlist(out, x, x ? (int) o->n : 0); fprintf(out, "\n");
         }
         ++depth;
         break;
@@ -139,16 +143,16 @@ static void hook_event(int id, const void *obj, const double *x, double v, int r
             fprintf(out, "E 2 d=%d ret=%d optf=", depth, r); phex(out, v);
             fprintf(out, " x="); phexlist(out, x, x ? (int) o->n : 0);
             fprintf(out, " numevals=%d\n", o->numevals);
+        } else if (depth == 1 && nest_marks) {
+            fprintf(out, "N 11 d=%d ret=%d minf=", depth + 1, r); phex(out, v);
+            fprintf(out, " x="); phexlist(out, x, x ? (int) o->n : 0);
+            fprintf(out, " numevals=%d fstop=%d\n", o->numevals, o->force_stop);
         }
         break;
     }
     case 10: {                  /* nlopt_optimize_ entry: the problem handed to the algorithm */
         const nlopt_opt o = (const nlopt_opt) obj;
         static int nested_dumps = 0;
-        if (depth >= 2) {       /* compact marker for every subsidiary run: the limits it was handed, its starting point */
-            fprintf(out, "N 10 d=%d alg=%d maxeval=%d fstop=%d x=", depth, (int) o->algorithm, o->maxeval, o->force_stop);
-            phexlist(out, x, (int) o->n); fprintf(out, "\n");
-        }
         if (depth >= 2 && ++nested_dumps > 12) break;   /* sub-optimizer problems: the first few only */
         fprintf(out, "E 10 d=%d x=", depth); phexlist(out, x, (int) o->n);
         fprintf(out, " "); dump_opt(out, o); fprintf(out, "\n");
@@ -156,12 +160,7 @@ static void hook_event(int id, const void *obj, const double *x, double v, int r
     }
     case 11: {                  /* nlopt_optimize_ returned */
         const nlopt_opt o = (const nlopt_opt) obj;
-        if (depth >= 2) {
-            fprintf(out, "N 11 d=%d ret=%d minf=", depth, r); phex(out, v);
-            fprintf(out, " x="); phexlist(out, x, (int) o->n);
-            fprintf(out, " numevals=%d fstop=%d\n", o->numevals, o->force_stop);
-            break;
-        }
+        if (depth >= 2) break;
         fprintf(out, "E 11 d=%d ret=%d minf=", depth, r); phex(out, v);
         fprintf(out, " x="); phexlist(out, x, (int) o->n);
         fprintf(out, " numevals=%d fstop=%d\n", o->numevals, o->force_stop);
@@ -501,9 +500,13 @@ static void one_run(const char *line)
     char b[8192];
     const char *v;
     int alg = (int) getint(line, "alg", 0);
+    int nest_marks_ = (alg == NLOPT_AUGLAG || alg == NLOPT_AUGLAG_EQ || alg == NLOPT_LN_AUGLAG || alg == NLOPT_LD_AUGLAG
+                       || alg == NLOPT_LN_AUGLAG_EQ || alg == NLOPT_LD_AUGLAG_EQ || alg == NLOPT_G_MLSL || alg == NLOPT_G_MLSL_LDS
+                       || alg == NLOPT_GN_MLSL || alg == NLOPT_GD_MLSL || alg == NLOPT_GN_MLSL_LDS || alg == NLOPT_GD_MLSL_LDS);
     unsigned n = (unsigned) getint(line, "n", 1);
     double *lb = NULL, *ub = NULL, *x0 = NULL, *x = NULL, *tmp = NULL;
     int runs = (int) getint(line, "runs", 1), r, nfd = 1, cbad = 0;
+    int nest_marks_dummy = (nest_marks = nest_marks_);
     nlopt_opt o, target;
     nlopt_result ret;
     double optf;
